@@ -129,7 +129,7 @@ theorem hasScope_putScope (s : State) (id : ScopeId) (owners : List Addr) (d : S
     · by_cases hc : id = d
       · exact ⟨⟨id, owners⟩, Or.inl rfl, hc⟩
       · refine ⟨e, Or.inr ⟨he, ?_⟩, hd⟩
-        simp only [ne_eq, decide_not, Bool.not_eq_eq_eq_not, Bool.not_true, decide_eq_false_iff_not]
+        simp only [ne_eq]
         rw [hd]; exact fun x => hc x.symm
 
 theorem hasScope_dropScope (s : State) (id d : ScopeId) :
